@@ -16,6 +16,7 @@ import Driver.TagCodec
 import Driver.Mp4
 import Driver.TagCodec2
 import Driver.Id3File
+import Driver.ApeFile
 open Driver
 
 def dispatch (line : String) : String :=
@@ -40,6 +41,7 @@ def dispatch (line : String) : String :=
     | "mp4" => mp4Op a
     | "tagc2" => tagc2Op a
     | "id3f" => id3fOp a
+    | "apef" => apefOp a
     | "flacinfo" => flacInfoOp a
     | "ping" => "pong"
     | _ => "bad-op"
